@@ -470,6 +470,61 @@ func init() {
 				}
 			}
 		}
+		c.Phase("signature-encodings") // the signature item (a window of the caller's unlocking script) in every encoding a lenient parser may try to tidy up: long-form lengths, padding, trailing bytes, components missing - the caller's scripts and transaction stay as they are whatever the verdict
+		{
+			n := uint64(0)
+			R, S := bytesOf(0x21, 32), bytesOf(0x31, 32)
+			der := func(seqLen []byte, rHdr, sHdr []byte) []byte {
+				body := append(append(append([]byte{}, rHdr...), R...), append(append([]byte{}, sHdr...), S...)...)
+				_ = seqLen
+				return body
+			}
+			plainBody := der(nil, []byte{0x02, 0x20}, []byte{0x02, 0x20})
+			longIntBody := der(nil, []byte{0x02, 0x81, 0x20}, []byte{0x02, 0x81, 0x20})
+			padBody := append(append([]byte{0x02, 0x23, 0, 0, 0}, R...), append([]byte{0x02, 0x21, 0}, S...)...)
+			variants := [][]byte{
+				append([]byte{0x30, byte(len(plainBody))}, plainBody...),
+				append([]byte{0x30, 0x81, byte(len(plainBody))}, plainBody...),
+				append([]byte{0x30, 0x82, 0x00, byte(len(plainBody))}, plainBody...),
+				append([]byte{0x30, 0x83, 0x00, 0x00, byte(len(plainBody))}, plainBody...),
+				append([]byte{0x30, byte(len(longIntBody))}, longIntBody...),
+				append([]byte{0x30, 0x81, byte(len(longIntBody))}, longIntBody...),
+				append([]byte{0x30, byte(len(padBody))}, padBody...),
+				append(append([]byte{0x30, byte(len(plainBody))}, plainBody...), 0x00, 0x00),
+				append([]byte{0x30, 0x81, byte(len(plainBody) + 2)}, plainBody...),
+				append([]byte{0x30, 0x80}, plainBody...),
+				{0x30, 0x81, 0x00}, {0x30, 0x81}, {0x30, 0x82, 0x00}, {0x30, 0x81, 0x03, 0x02, 0x01, 0x01},
+			}
+			for vi, v := range variants {
+				for _, ht := range []byte{0x01, 0x41, 0x03, 0xc1} {
+					for _, fl := range []uint32{0, uint32(scriptflag.UTXOAfterGenesis), uint32(scriptflag.VerifyDERSignatures), uint32(scriptflag.VerifyNullFail), uint32(scriptflag.EnableSighashForkID | scriptflag.UTXOAfterGenesis)} {
+						for shape := 0; shape < 3; shape++ {
+							n++
+							if !c.Case(n) {
+								continue
+							}
+							r := c.Rand(n)
+							sig := append(append([]byte{}, v...), ht)
+							cs := &c06Case{Flags: fl, Sats: uint64(1 + r.Intn(100000)), Tx: *gen.RandShape(r, gen.ShapeOpts{MinIns: 1, MaxIns: 3, MaxOuts: 3}), Class: "signature-encodings",
+								Desc: fmt.Sprintf("signature encoding variant %d, hash type %#x", vi, ht)}
+							cs.Idx = r.Intn(len(cs.Tx.Ins))
+							u := gen.Push(sig)
+							switch shape {
+							case 0:
+								cs.Lock = append(gen.Push(c07KeyG), 0xac, 0x91)
+							case 1: // the signature is DUPed first: the twin must keep its bytes
+								cs.Lock = append(append([]byte{0x76}, gen.Push(c07KeyG)...), 0xac, 0x75, 0x75, 0x51)
+							default: // 1-of-2 multisig
+								u = append([]byte{0x00}, u...)
+								cs.Lock = append(append(append([]byte{0x51}, gen.Push(c07KeyG)...), gen.Push(c07Key2G)...), 0x52, 0xae, 0x91)
+							}
+							cs.Tx.Ins[cs.Idx].Unlock, cs.Tx.Ins[cs.Idx].UnlockNil = u, false
+							sigJudge(c, cs)
+						}
+					}
+				}
+			}
+		}
 		c.Phase("signature-programs")
 		NS := uint64(3000)
 		if c.Thorough {
